@@ -157,9 +157,7 @@ func (m *Metadata) MarshalBinary() ([]byte, error) {
 
 // UnmarshalBinary implements encoding.BinaryUnmarshaler.
 func (m *Metadata) UnmarshalBinary(data []byte) error {
-	var read int64
-	for read < int64(len(data)) {
-		data = data[read:]
+	for len(data) != 0 {
 		v, _, err := varint.FromUvarint(data)
 		if err != nil {
 			return err
@@ -172,14 +170,16 @@ func (m *Metadata) UnmarshalBinary(data []byte) error {
 		if err != nil {
 			return err
 		}
+		if tLen <= 0 {
+			return errors.New("transport metadata decoded from no data")
+		}
 		m.protocols = append(m.protocols, t)
-		read += tLen
+		// Continue with the data that follows the transport just read.
+		data = data[tLen:]
 	}
 	return m.Validate()
 }
 
-// Equal checks whether this Metadata is equal with the other Metadata.
-// The two are considered equal if they have the same transports with the same order.
 func (m Metadata) Equal(other Metadata) bool {
 	if len(m.protocols) != len(other.protocols) {
 		return false
